@@ -70,7 +70,9 @@ func c02Alphabet() (lines []c02Line, hA, hB string) {
 		net(false, p, true, "client=10.0.0.0/8|~10.0.0.1"), // a client inside both the permitted and the restricted set
 		net(false, p, true, "client=laptop|~laptop"),
 		net(false, "||cafe.de^", true, "denyallow=x.test"),
+		net(false, "/sub.", true), // a "/label." pattern: applied to "http://" + host name, the slash being the last one of the scheme
 		net(false, "http://example.org^", true),                                         // the scheme spelled out: filed under a window of "http://"
+		{text: "0.0.0.0 sub.example.org # see lists.example.net/hosts.txt##ads and x#@#y"}, // element-hiding markers further inside a comment
 		{text: "0.0.0.0 example.org sub.example.org # src: https://x.test/l?a=b|c^*$@"}, // a host name spelled with hexadecimal digits only is not an address
 		net(false, p, false, "third-party", "important"),                                // browser-only modifier next to a DNS-level one
 		net(true, p, false, "document", "important"),
@@ -134,6 +136,10 @@ func c02Size(c *Ctx) (evals int64) {
 			sb.WriteString("@@||net.tracking-network-metrics.size.test^$ctag=t00\n")
 		}
 		ls = append(ls, &filterlist.StringRuleList{ID: id, RulesText: sb.String()})
+		if k == 2 {
+			// a list that holds no rule at all between the others
+			ls = append(ls, &filterlist.StringRuleList{ID: 45, RulesText: "! nothing but comments\n!\n"})
+		}
 	}
 	st, err := filterlist.NewRuleStorage(ls)
 	if err != nil {
@@ -370,6 +376,92 @@ func (m *c02Model) run(hist []int) statespace.Outcome {
 			reported = true
 			violate("dns-answer-equals-reference", map[string]any{"lines": sortedSet(texts), "request": q.desc},
 				fmt.Sprintf("list %q, request %s: engine %s (rule %s), reference %s", texts, q.desc, got, renderNetText(res.NetworkRule), want))
+		}
+	}
+	// the other routes to the same answer: the Match(hostname) wrapper, the same request object asked again,
+	// and the same lines in a list loaded with IgnoreCosmetic under another id
+	if !reported && (len(hist) <= 2 || m.c.Thorough()) {
+		st2, err2 := filterlist.NewRuleStorage([]filterlist.RuleList{&filterlist.StringRuleList{ID: 7, RulesText: "! dns list\n" + content, IgnoreCosmetic: true}})
+		if err2 != nil {
+			panic(HarnessError(err2.Error()))
+		}
+		var e2 *urlfilter.DNSEngine
+		if p := protect(func() { e2 = urlfilter.NewDNSEngine(st2) }); p != nil {
+			violate("no-crash", map[string]any{"lines": texts, "route": "IgnoreCosmetic"}, fmt.Sprintf("NewDNSEngine over %q loaded with IgnoreCosmetic panics: %v", texts, p))
+			return statespace.Outcome{Key: "panic"}
+		}
+		short := func(res *urlfilter.DNSResult, matched bool) string {
+			if res == nil {
+				return fmt.Sprintf("matched=%v <nil result>", matched)
+			}
+			var v4, v6 []string
+			for _, h := range res.HostRulesV4 {
+				v4 = append(v4, h.RuleText)
+			}
+			for _, h := range res.HostRulesV6 {
+				v6 = append(v6, h.RuleText)
+			}
+			return fmt.Sprintf("matched=%v rule=%s rules=%v v4=%v v6=%v", matched, renderNetText(res.NetworkRule), netTexts(res.NetworkRules), v4, v6)
+		}
+		for _, q := range m.reqs {
+			rq, rq2 := q.r, q.r
+			var a, b string
+			if p := protect(func() { a = short(e.MatchRequest(&rq)); b = short(e2.MatchRequest(&rq2)) }); p != nil {
+				violate("no-crash", map[string]any{"lines": texts, "request": q.desc, "route": "IgnoreCosmetic"}, fmt.Sprintf("MatchRequest(%s) over %q loaded with IgnoreCosmetic panics: %v", q.desc, texts, p))
+				reported = true
+				break
+			}
+			if a != b {
+				reported = true
+				violate("dns-answer-equals-reference", map[string]any{"lines": sortedSet(texts), "request": q.desc, "route": "IgnoreCosmetic"},
+					fmt.Sprintf("list %q, request %s: loaded with IgnoreCosmetic (id 7, after a comment line) the engine answers %s, loaded plainly %s", texts, q.desc, b, a))
+				break
+			}
+		}
+	}
+	if !reported && (len(hist) <= 2 || m.c.Thorough()) {
+		render := func(res *urlfilter.DNSResult, matched bool) string {
+			if res == nil {
+				return fmt.Sprintf("matched=%v <nil result>", matched)
+			}
+			var v4, v6 []string
+			for _, h := range res.HostRulesV4 {
+				v4 = append(v4, h.RuleText)
+			}
+			for _, h := range res.HostRulesV6 {
+				v6 = append(v6, h.RuleText)
+			}
+			return fmt.Sprintf("matched=%v rule=%s rules=%v v4=%v v6=%v", matched, renderNetText(res.NetworkRule), netTexts(res.NetworkRules), v4, v6)
+		}
+		seenHost := map[string]bool{}
+		for _, q := range m.reqs {
+			rq := q.r
+			var a, b, w string
+			if p := protect(func() {
+				a = render(e.MatchRequest(&rq))
+				b = render(e.MatchRequest(&rq))
+				if !seenHost[rq.Hostname] {
+					w = render(e.Match(rq.Hostname))
+				}
+			}); p != nil {
+				violate("no-crash", map[string]any{"lines": texts, "request": q.desc, "route": "repeat"}, fmt.Sprintf("MatchRequest(%s) asked again over %q panics: %v", q.desc, texts, p))
+				break
+			}
+			if a != b {
+				violate("dns-answer-equals-reference", map[string]any{"lines": sortedSet(texts), "request": q.desc, "route": "same request object again"},
+					fmt.Sprintf("list %q, request %s: the same request object asked twice gives %s, then %s", texts, q.desc, a, b))
+				break
+			}
+			if !seenHost[rq.Hostname] {
+				seenHost[rq.Hostname] = true
+				plain := urlfilter.DNSRequest{Hostname: rq.Hostname}
+				var pa string
+				if p := protect(func() { pa = render(e.MatchRequest(&plain)) }); p == nil && pa != w {
+					violate("dns-answer-equals-reference", map[string]any{"lines": sortedSet(texts), "hostname": rq.Hostname, "route": "Match(hostname)"},
+						fmt.Sprintf("list %q: DNSEngine.Match(%q) gives %s, MatchRequest with the same host name gives %s", texts, rq.Hostname, w, pa))
+					break
+				}
+			}
 		}
 	}
 	dump := urlfilter.VerifDNSEngineDump(e)
